@@ -39,8 +39,21 @@ def _imports():
 # names <-> numbers (the Lean model uses natural numbers)
 # ---------------------------------------------------------------------------------------------
 
-def ch_name(i): return 'ch%d' % i
-def meas_name(i): return 'm%d' % i
+# ChannelID = Union[str, int] and measurement names are arbitrary dictionary keys: a history uses one identifier
+# style — 'str' ('ch3', 'm1'), 'int' (3, 1; the integer 0 included) or 'mixed' (even numbers as integers, odd ones
+# as strings).  The style is fixed per executed history (`execute` sets it; one history at a time per process).
+STYLE = 'str'
+STYLES = ('str', 'int', 'mixed')
+
+
+def _ident(prefix, i):
+    if STYLE == 'int' or (STYLE == 'mixed' and i % 2 == 0):
+        return int(i)
+    return '%s%d' % (prefix, i)
+
+
+def ch_name(i): return _ident('ch', i)
+def meas_name(i): return _ident('m', i)
 def mask_name(i): return 'K%d' % i
 def prog_name(i): return 'p%d' % i
 
@@ -53,6 +66,8 @@ class Unknown:
     def idx(self, prefix, s):
         if isinstance(s, str) and s.startswith(prefix) and s[len(prefix):].isdigit():
             return int(s[len(prefix):])
+        if prefix in ('ch', 'm') and isinstance(s, int) and not isinstance(s, bool) and 0 <= s < 900:
+            return s                                     # integer identifiers stand for themselves
         return self.table.setdefault((prefix, repr(s)), 900 + len(self.table))
 
 
@@ -68,7 +83,7 @@ def build_program(channels, meas, shape):
     """a fresh real Loop: `create_program` of a real template, run once per distinct specification; later
     requests get qupulse's own `copy_tree_structure` of that program (measurements are dropped from a program
     by a successful registration, so every registration needs its own object)"""
-    key = (channels, meas, shape)
+    key = (STYLE, channels, meas, shape)
     if key not in _LOOP_CACHE:
         _LOOP_CACHE[key] = build_template(channels, meas, shape).create_program()
     return _LOOP_CACHE[key].copy_tree_structure()
@@ -77,7 +92,7 @@ def build_program(channels, meas, shape):
 def build_template(channels, meas, shape):
     """channels: tuple of channel numbers; meas: tuple of (measurement number, ((begin, length), ...));
     shape selects the template classes.  All times are dyadic, so the float windows are exact."""
-    key = (channels, meas, shape)
+    key = (STYLE, channels, meas, shape)
     if key in _PT_CACHE:
         return _PT_CACHE[key]
     from qupulse.pulses import TablePT, ConstantPT, SequencePT, RepetitionPT
@@ -149,6 +164,27 @@ def faulty_classes():
     return _FAULTY['awg'], _FAULTY['dac']
 
 
+FORMS = ('list', 'tuple', 'set', 'gen', 'iter', 'map')
+
+
+def as_collection(items, form):
+    """the legal forms of an `Iterable[...]` argument: list, tuple, set, and one-shot iterators"""
+    if form == 'tuple':
+        return tuple(items)
+    if form == 'set':
+        try:
+            return set(items)
+        except TypeError:
+            return list(items)
+    if form == 'gen':
+        return (x for x in items)
+    if form == 'iter':
+        return iter(list(items))
+    if form == 'map':
+        return map(lambda x: x, items)
+    return list(items)
+
+
 class World:
     def __init__(self, cfg, ndacs):
         HardwareSetup, PlaybackChannel, MarkerChannel, MeasurementMask, DummyAWG, DummyDAC = _imports()
@@ -158,6 +194,10 @@ class World:
         self.awgs = [FaultyAWG(num_channels=c, num_markers=m) for c, m in self.cfg]
         self.dacs = [FaultyDAC() for _ in range(ndacs)]
         self.last_loop = {}         # program name number -> (Loop object, update) of the last ok registration
+        # the wiring the caller handed over in the normally returning set_channel / set_measurement / rm_channel
+        # calls (what "wired to" means for the judge; the setup's own maps are compared with the model separately)
+        self.wired_ch = {}          # channel number -> [(awg, kind, pos, trafo)] (equal outputs: first kept)
+        self.wired_m = {}           # measurement number -> [(dac, mask, oid)]
         self.hs = HardwareSetup()
         self.trafos = {}            # trafo number -> callable
         self.trafo_of = {}          # id(callable) -> number
@@ -210,18 +250,22 @@ class World:
             with warnings.catch_warnings():
                 warnings.simplefilter('ignore')
                 if kind == 'set-channel':
-                    _, cid, allow, specs = op
+                    _, cid, allow, specs = op[:4]
                     chans = [self.channel(s) for s in specs]
                     self.keep.extend(chans)
-                    self.hs.set_channel(ch_name(cid), chans, allow_multiple_registration=allow)
+                    line = op[:4]
+                    self.hs.set_channel(ch_name(cid), as_collection(chans, op[4] if len(op) > 4 else 'list'),
+                                        allow_multiple_registration=allow)
                 elif kind == 'set-channel-single':
                     _, cid, allow, spec = op
                     ch = self.channel(spec)
                     self.keep.append(ch)
                     self.hs.set_channel(ch_name(cid), ch, allow_multiple_registration=allow)
                 elif kind == 'set-measurement':
-                    _, m, allow, masks = op
-                    self.hs.set_measurement(meas_name(m), [self.mask(*x) for x in masks],
+                    _, m, allow, masks = op[:4]
+                    line = op[:4]
+                    self.hs.set_measurement(meas_name(m),
+                                            as_collection([self.mask(*x) for x in masks], op[4] if len(op) > 4 else 'list'),
                                             allow_multiple_registration=allow)
                 elif kind == 'set-measurement-single':
                     _, m, allow, mk = op
@@ -281,6 +325,7 @@ class World:
                         return line, ('error', 'callback-not-called-once')
                 else:
                     raise core.MachineryError('unknown op %r' % (op,))
+            self._note_wiring(op)
             return line, 'ok'
         except ProgramOverwriteException:
             return line, ('error', 'program_overwrite')
@@ -296,6 +341,27 @@ class World:
             return line, ('error', 'runtime_error')
         except Exception as e:  # noqa
             return line, ('error', 'other:' + type(e).__name__)
+
+    def _note_wiring(self, op):
+        kind = op[0]
+        if kind in ('set-channel', 'set-channel-single'):
+            new = [tuple(sp[1:5]) for sp in (op[3] if kind == 'set-channel' else [op[3]]) if sp != 'junk']
+            items = (self.wired_ch.get(op[1], []) if kind == 'set-channel-single' else []) + new
+            out = []
+            for o in items:
+                if all(o[:3] != x[:3] for x in out):
+                    out.append(o)
+            self.wired_ch[op[1]] = out
+        elif kind in ('set-measurement', 'set-measurement-single'):
+            new = [tuple(x) for x in (op[3] if kind == 'set-measurement' else [op[3]])]
+            items = (self.wired_m.get(op[1], []) if kind == 'set-measurement-single' else []) + new
+            out = []
+            for x in items:
+                if all(x[2] != y[2] for y in out):
+                    out.append(x)
+            self.wired_m[op[1]] = out
+        elif kind == 'rm-channel':
+            self.wired_ch.pop(op[1], None)
 
     def rewires(self, op):
         """does `op` change the wiring of a name that a registered program uses (twin of QP.C18.rewires)?
@@ -338,9 +404,9 @@ class World:
         return jst if for_judge else st
 
     def state_pair(self):
-        """the implementation's state as plain data, twice: as observed, and for the judge, where the registered
-        program's measurement windows are the ones the harness handed over (the program's own), not the setup's
-        record of them."""
+        """the implementation's state as plain data, twice: as observed, and for the judge, where the wiring is the
+        one the caller handed over and the registered program's measurement windows are the ones the harness handed
+        over (the program's own), not the setup's records of them."""
         _, PlaybackChannel, MarkerChannel, _, _, _ = _imports()
         hs = self.hs
         chmap = {}
@@ -384,7 +450,9 @@ class World:
                     (self.unk.idx('K', k), windows_of_arrays(bl)) for k, bl in windows.items()))
             dacs.append((self._name(d._armed_program), tuple(sorted(progs.items())), int(getattr(d, 'fault', 0))))
         c, m, a, d = tuple(sorted(chmap.items())), tuple(sorted(measmap.items())), tuple(awgs), tuple(dacs)
-        return (c, m, tuple(sorted(reg.items())), a, d), (c, m, tuple(sorted(jreg.items())), a, d)
+        jc = tuple(sorted((k, tuple(sorted(set(v)))) for k, v in self.wired_ch.items()))
+        jm = tuple(sorted((k, tuple(sorted(set(v)))) for k, v in self.wired_m.items()))
+        return (c, m, tuple(sorted(reg.items())), a, d), (jc, jm, tuple(sorted(jreg.items())), a, d)
 
 
 # ---------------------------------------------------------------------------------------------
@@ -496,9 +564,11 @@ def mask_names(st, names):
 # executing a history on the implementation
 # ---------------------------------------------------------------------------------------------
 
-def execute(cfg, ndacs, ops, gen=None, skip=0):
+def execute(cfg, ndacs, ops, gen=None, skip=0, style='str'):
     """run `ops` (or, with `gen`, ops produced on the fly from the live world) on a fresh real setup.
     Returns dict(cfg, ndacs, ops, steps=[dict(line, res, state, jstate, conflict)])."""
+    global STYLE
+    STYLE = style
     w = World(cfg, ndacs)
     steps = []
     done_ops = []
@@ -539,7 +609,7 @@ def execute(cfg, ndacs, ops, gen=None, skip=0):
         prev = st
         if res != 'ok' and (res[1] in ('program_overwrite', 'runtime_error') or res[1].startswith('other:')):
             break      # the call may have left a half-done upload behind: the history ends here
-    return {'cfg': [list(c) for c in cfg], 'ndacs': ndacs, 'ops': done_ops, 'steps': steps, 'skip': skip,
+    return {'cfg': [list(c) for c in cfg], 'ndacs': ndacs, 'ops': done_ops, 'steps': steps, 'skip': skip, 'style': style,
             'init_jstate': init_j}
 
 
@@ -662,7 +732,7 @@ def evaluate(ctx, histories, label, fix=True, register_cases=True, compare=True)
                     masked.clear()
                 mst = state_of_sx(t[2])
                 if mask_names(s['state'], masked) != mask_names(mst, masked):
-                    ctx.drift('HardwareSetup state vs QP.C18.step', {'cfg': h['cfg'], 'ndacs': h['ndacs'],
+                    ctx.drift('HardwareSetup state vs QP.C18.step', {'cfg': h['cfg'], 'ndacs': h['ndacs'], 'style': h.get('style'),
                                                                      'ops': [list(map(str, o)) for o in h['ops'][:i + 1]]},
                               _diff(s['state'], mst), 'state after step %d (%s)' % (i, describe(op)))
                     in_sync = False
@@ -786,7 +856,7 @@ def history_generator(rng, cfg, ndacs, length, rewire_ok):
                         taken.add(o[1:4])
                         outs.append(o)
                         break
-            yield ('set-channel', cid, False, outs)
+            yield ('set-channel', cid, False, outs, rng.choice(FORMS))
         taken_m = set()
         for m in range(0 if sparse else rng.randrange(2, 5)):
             masks = []
@@ -795,7 +865,7 @@ def history_generator(rng, cfg, ndacs, length, rewire_ok):
                 if (d, k) not in taken_m:
                     taken_m.add((d, k))
                     masks.append((d, k, d * 4 + k))      # one mask object per (dac, mask): oid = d*4+k
-            yield ('set-measurement', m, False, masks)
+            yield ('set-measurement', m, False, masks, rng.choice(FORMS))
         faulty = rewire_ok == 3
         if faulty:
             # refusing devices: one or two devices raise RuntimeError on remove / arm / delete_program from here on
@@ -864,7 +934,11 @@ def history_generator(rng, cfg, ndacs, length, rewire_ok):
                              for _ in range(rng.choice([0, 1, 1, 2, 2, 3]))]
                     if rng.random() < 0.05:
                         specs.insert(rng.randrange(len(specs) + 1), 'junk')
-                    yield ('set-channel', cid, allow, specs)
+                    keys = [sp[1:4] for sp in specs if sp != 'junk']
+                    form = rng.choice(FORMS)
+                    if form == 'set' and len(set(keys)) < len(keys):
+                        form = 'list'         # equal outputs with different transformations: a set keeps an arbitrary one
+                    yield ('set-channel', cid, allow, specs, form)
             else:
                 free = sorted(set(range(6)) - used_m)
                 if rewire_ok and used_m and rng.random() < (0.8 if sparse else 0.5):
@@ -880,18 +954,18 @@ def history_generator(rng, cfg, ndacs, length, rewire_ok):
                 if rng.random() < 0.3:
                     yield ('set-measurement-single', m, allow, rng.choice(pool))
                 else:
-                    yield ('set-measurement', m, allow, rng.sample(pool, rng.choice([0, 1, 1, 2, 3])))
+                    yield ('set-measurement', m, allow, rng.sample(pool, rng.choice([0, 1, 1, 2, 3])), rng.choice(FORMS))
     return gen
 
 
 # fixed wiring + alphabet for the exhaustive small-scope space
 EXH_CFG = ([(2, 1), (2, 1)], 2)
 EXH_SETUP = [
-    ('set-channel', 0, False, [('o', 0, PB, 0, 1), ('o', 0, PB, 1, 2)]),      # two outputs of one generator
-    ('set-channel', 1, False, [('o', 1, PB, 1, 3)]),
-    ('set-channel', 2, False, [('o', 0, MK, 0, 0), ('o', 1, MK, 0, 0)]),      # a name on two generators
-    ('set-measurement', 0, False, [(0, 0, 0)]),
-    ('set-measurement', 1, False, [(1, 1, 1), (0, 2, 2)]),                    # a name on two devices
+    ('set-channel', 0, False, [('o', 0, PB, 0, 1), ('o', 0, PB, 1, 2)], 'gen'),   # two outputs of one generator
+    ('set-channel', 1, False, [('o', 1, PB, 1, 3)], 'tuple'),
+    ('set-channel', 2, False, [('o', 0, MK, 0, 0), ('o', 1, MK, 0, 0)], 'set'),   # a name on two generators
+    ('set-measurement', 0, False, [(0, 0, 0)], 'gen'),
+    ('set-measurement', 1, False, [(1, 1, 1), (0, 2, 2)], 'iter'),                # a name on two devices
 ]
 _W = ((F(0), F(1)),)
 _V = ((F(1), F(1, 2)), (F(2), F(1)))
@@ -913,20 +987,20 @@ EXH_ALPHABET = (
 # second exhaustive space: re-wiring between registration and removal / clearing.  Every device under one name.
 UNW_CFG = ([(2, 1), (1, 0)], 2)
 UNW_SETUP = [
-    ('set-channel', 0, False, [('o', 0, PB, 0, 1)]),
-    ('set-measurement', 0, False, [(0, 0, 0)]),
+    ('set-channel', 0, False, [('o', 0, PB, 0, 1)], 'map'),
+    ('set-measurement', 0, False, [(0, 0, 0)], 'map'),
 ]
 _P = ((0,), ((0, _W),), 0)
 _Q = ((0,), (), 0)
 UNW_ALPHABET = [
     ('register', 0, _P, True, True, None),
     ('register', 1, _Q, True, True, None),
-    ('set-channel', 0, False, [('o', 1, PB, 0, 2)]),       # channel 0 moves to the second generator
+    ('set-channel', 0, False, [('o', 1, PB, 0, 2)], 'iter'),       # channel 0 moves to the second generator
     ('set-channel', 0, True, [('o', 0, PB, 0, 1)]),        # ... and back
     ('set-channel', 0, True, [('o', 0, PB, 1, 3), ('o', 0, MK, 0, 0)]),   # ... to other outputs of the first one
     ('register-same', 0, True, True),                      # the same Loop object again, update=True
     ('rm-channel', 0),
-    ('set-measurement', 0, False, [(1, 1, 5)]),            # measurement 0 moves to the second device
+    ('set-measurement', 0, False, [(1, 1, 5)], 'gen'),            # measurement 0 moves to the second device
     ('remove', 0), ('remove', 1), ('clear',), ('arm', 0),
 ]
 
@@ -962,7 +1036,7 @@ def exhaustive_histories(length):
 def _exec_job(job):
     cfg, ndacs, ops = job[:3]
     core.ensure_repo_on_path()
-    return execute(cfg, ndacs, ops, skip=job[3] if len(job) > 3 else 0)
+    return execute(cfg, ndacs, ops, skip=job[3] if len(job) > 3 else 0, style=job[4] if len(job) > 4 else 'str')
 
 
 def _exec_random_job(job):
@@ -970,7 +1044,8 @@ def _exec_random_job(job):
     import random
     core.ensure_repo_on_path()
     rng = random.Random(seed)
-    return execute(cfg, ndacs, None, gen=history_generator(rng, cfg, ndacs, length, rewire_ok))
+    style = rng.choice(['str', 'str', 'int', 'int', 'mixed'])
+    return execute(cfg, ndacs, None, gen=history_generator(rng, cfg, ndacs, length, rewire_ok), style=style)
 
 
 class Collector:
@@ -1010,7 +1085,8 @@ def _chunk_job(args):
         if hi not in seen:
             seen.add(hi)
             if len(vio) < 5:
-                vio.append(({'cfg': hs[hi]['cfg'], 'ndacs': hs[hi]['ndacs'], 'ops': hs[hi]['ops']}, i, what))
+                vio.append(({'cfg': hs[hi]['cfg'], 'ndacs': hs[hi]['ndacs'], 'ops': hs[hi]['ops'],
+                             'style': hs[hi].get('style', 'str')}, i, what))
     return {'col': col, 'violations': vio, 'nviolating': len(seen)}
 
 
@@ -1060,21 +1136,21 @@ def run_chunks(ctx, kind, jobs, label, chunk, compare=True, deadline=None):
 # violations: shrink, report
 # ---------------------------------------------------------------------------------------------
 
-def judge_history(ctx, cfg, ndacs, ops):
+def judge_history(ctx, cfg, ndacs, ops, style='str'):
     """execute + judge only; returns (history, violations)"""
-    h = execute(cfg, ndacs, ops)
+    h = execute(cfg, ndacs, ops, style=style)
     v = evaluate(ctx, [h], 'shrink', register_cases=False, compare=False)
     return h, v
 
 
-def shrink(ctx, cfg, ndacs, ops, limit=40):
+def shrink(ctx, cfg, ndacs, ops, limit=40, style='str'):
     """delta-debugging on the operation list while the judge still reports a violation"""
     ops = list(ops)
     for _round in range(limit):
         cands = [ops[:i] + ops[i + 1:] for i in range(len(ops))]
         if not cands:
             break
-        hs = [execute(cfg, ndacs, c) for c in cands]
+        hs = [execute(cfg, ndacs, c, style=style) for c in cands]
         lines_v = evaluate(ctx, hs, 'shrink', register_cases=False, compare=False)
         bad = sorted({hi for hi, _i, _w in lines_v})
         if not bad:
@@ -1088,19 +1164,21 @@ def report(ctx, h, step, what, do_shrink=True):
     # keep following ops that make the consequence visible (e.g. remove after a stale registration)
     if do_shrink:
         try:
-            ops = shrink(ctx, h['cfg'], h['ndacs'], ops)
-            h2, v2 = judge_history(ctx, h['cfg'], h['ndacs'], ops)
+            ops = shrink(ctx, h['cfg'], h['ndacs'], ops, style=h.get('style', 'str'))
+            h2, v2 = judge_history(ctx, h['cfg'], h['ndacs'], ops, style=h.get('style', 'str'))
             if v2:
                 what = v2[-1][2]
         except core.MachineryError:
             pass
-    key = json.dumps(ops_to_json(ops), sort_keys=True)
+    style = h.get('style', 'str')
+    key = json.dumps([style, ops_to_json(ops)], sort_keys=True)
     seen = ctx.__dict__.setdefault('_reported_histories', [])
     if key in seen:
         return                      # different failing histories shrank to the same minimal one
     seen.append(key)
-    ctx.violation('HardwareSetup routing: %s; history: %s' % (what, ' ; '.join(describe(op_to_plain(o)) for o in ops)),
-                  {'kind': 'history', 'cfg': h['cfg'], 'ndacs': h['ndacs'], 'ops': ops_to_json(ops)})
+    ctx.violation('HardwareSetup routing: %s; identifiers: %s; history: %s'
+                  % (what, style, ' ; '.join(sx(op_to_plain(o)) for o in ops)),
+                  {'kind': 'history', 'cfg': h['cfg'], 'ndacs': h['ndacs'], 'style': style, 'ops': ops_to_json(ops)})
 
 
 def op_to_plain(op):
@@ -1109,6 +1187,8 @@ def op_to_plain(op):
         _, n, (chans, meas, shape), cb, upd, ov = op
         return ('register', n, ['spec', list(chans), [[m, [list(w) for w in ws]] for m, ws in meas], shape], cb, upd,
                 'none' if ov is None else [[m, [list(w) for w in ws]] for m, ws in ov])
+    if op[0] in ('set-channel', 'set-measurement') and len(op) > 4:
+        return op_sx(op) + ['as-' + op[4]]
     return op_sx(op)
 
 
@@ -1133,7 +1213,7 @@ def ops_from_json(ops):
     for o in ops:
         o = dec(o)
         if o[0] in ('set-channel', 'set-measurement'):
-            o = (o[0], o[1], o[2], list(o[3]))
+            o = (o[0], o[1], o[2], list(o[3])) + tuple(o[4:])
         out.append(o)
     return out
 
@@ -1180,23 +1260,25 @@ def run(ctx: core.Ctx):
 
     # exhaustive small scope
     exh_len = 3 if ctx.quick else 4          # a length, not a count: never escalated (ctx.n would multiply it)
-    jobs = [(EXH_CFG[0], EXH_CFG[1], EXH_SETUP)]          # the shared wiring prefix, checked once
-    jobs += [(EXH_CFG[0], EXH_CFG[1], ops, len(EXH_SETUP)) for ops in exhaustive_histories(exh_len)]
+    # integer identifiers (the channel identifier 0 included) in this space
+    jobs = [(EXH_CFG[0], EXH_CFG[1], EXH_SETUP, 0, 'int')]          # the shared wiring prefix, checked once
+    jobs += [(EXH_CFG[0], EXH_CFG[1], ops, len(EXH_SETUP), 'int') for ops in exhaustive_histories(exh_len)]
     ctx.exhaustive_spaces.append('all histories of length %d (prefixes included) over %d operations on a fixed wiring '
                                  '(%d histories)' % (exh_len, len(EXH_ALPHABET), len(jobs)))
     run_chunks(ctx, 'ops', jobs, 'exh', 1000)
 
     # exhaustive re-wiring scope (register / re-wire / remove / clear on devices that drop out of the wiring)
     unw_len = 3 if ctx.quick else 4
-    jobs = [(UNW_CFG[0], UNW_CFG[1], UNW_SETUP)]
-    jobs += [(UNW_CFG[0], UNW_CFG[1], ops, len(UNW_SETUP)) for ops in unwiring_histories(unw_len)]
+    jobs = [(UNW_CFG[0], UNW_CFG[1], UNW_SETUP, 0, 'mixed')]
+    jobs += [(UNW_CFG[0], UNW_CFG[1], ops, len(UNW_SETUP), 'mixed') for ops in unwiring_histories(unw_len)]
     ctx.exhaustive_spaces.append('all histories of length %d over %d operations incl. re-wiring of the only name of a '
                                  'device (%d histories)' % (unw_len, len(UNW_ALPHABET), len(jobs) - 1))
     run_chunks(ctx, 'ops', jobs, 'unw', 1000)
 
     # exhaustive fault scope (a refusing device among several participants)
     flt_len = 3 if ctx.quick else 4
-    jobs = [(EXH_CFG[0], EXH_CFG[1], ops, len(EXH_SETUP)) for ops in fault_histories(flt_len)]
+    jobs = [(EXH_CFG[0], EXH_CFG[1], EXH_SETUP, 0, 'str')]
+    jobs += [(EXH_CFG[0], EXH_CFG[1], ops, len(EXH_SETUP), 'str') for ops in fault_histories(flt_len)]
     ctx.exhaustive_spaces.append('all histories of length %d over %d operations incl. fault injection on one of '
                                  'several participating devices (%d histories)' % (flt_len, len(FLT_ALPHABET), len(jobs)))
     run_chunks(ctx, 'ops', jobs, 'flt', 1000)
@@ -1212,9 +1294,9 @@ def run(ctx: core.Ctx):
 
 def search(ctx):
     """model and implementation differ but no judged state violated the property: look further (judge only)"""
-    jobs = [(EXH_CFG[0], EXH_CFG[1], ops, len(EXH_SETUP)) for ops in exhaustive_histories(3)]
-    jobs += [(UNW_CFG[0], UNW_CFG[1], ops, len(UNW_SETUP)) for ops in unwiring_histories(3)]
-    jobs += [(EXH_CFG[0], EXH_CFG[1], ops, len(EXH_SETUP)) for ops in fault_histories(3)]
+    jobs = [(EXH_CFG[0], EXH_CFG[1], ops, len(EXH_SETUP), 'int') for ops in exhaustive_histories(3)]
+    jobs += [(UNW_CFG[0], UNW_CFG[1], ops, len(UNW_SETUP), 'mixed') for ops in unwiring_histories(3)]
+    jobs += [(EXH_CFG[0], EXH_CFG[1], ops, len(EXH_SETUP), 'str') for ops in fault_histories(3)]
     if run_chunks(ctx, 'ops', jobs, 'search', 1000, compare=False):
         return
     run_chunks(ctx, 'random', random_jobs(ctx.fork('search'), ctx.n(300, 3000), 30), 'search', 250, compare=False)
@@ -1224,7 +1306,7 @@ def replay(ctx: core.Ctx, rec: dict, from_corpus: bool = False) -> bool:
     if rec.get('kind') != 'history':
         return True
     ops = ops_from_json(rec['ops'])
-    h = execute([tuple(c) for c in rec['cfg']], rec['ndacs'], ops)
+    h = execute([tuple(c) for c in rec['cfg']], rec['ndacs'], ops, style=rec.get('style', 'str'))
     v = evaluate(ctx, [h], 'corpus' if from_corpus else 'replay', compare=from_corpus)
     for hi, i, what in v[:1]:
         report(ctx, h, i, what, do_shrink=False)
